@@ -102,6 +102,34 @@ fn egraph_members(gens: &[Vec<u32>], perms: &[Vec<u32>], nm: &Naming, deg: usize
     (out, eg.progress().sum_of_symmetries)
 }
 
+/// the same, then make the slot at position `red` redundant (f(.., r, ..) = f(.., fresh, ..)) and ask again - half of the
+/// probes through the handles obtained BEFORE that union (old handles), half through new lookups.
+/// Returns (members before, symmetries before, members after, symmetries after, class slots after)
+fn egraph_members_red(gens: &[Vec<u32>], perms: &[Vec<u32>], nm: &Naming, deg: usize, red: usize) -> (Vec<bool>, usize, Vec<bool>, usize, usize) {
+    let mut eg: EGraph<T> = EGraph::default();
+    let idp: Vec<u32> = (1..=deg as u32).collect();
+    let base = eg.add_expr(to_recexpr::<T>(&leaf(&idp), nm).unwrap());
+    for g in gens {
+        let c = eg.add_expr(to_recexpr::<T>(&leaf(g), nm).unwrap());
+        eg.union(&base, &c);
+    }
+    let old: Vec<AppliedId> = perms.iter().map(|p| lookup_rec_expr(&to_recexpr::<T>(&leaf(p), nm).unwrap(), &eg).expect("permuted copy must be represented")).collect();
+    let in1: Vec<bool> = old.iter().map(|c| eg.eq(&base, c)).collect();
+    let syms1 = eg.progress().sum_of_symmetries;
+    // position `red` gets a name no other argument uses
+    let nm2 = nm;        // the caller's naming has one spare name (deg + 1)
+    let mut other = idp.clone();
+    other[red - 1] = deg as u32 + 1;
+    let o = eg.add_expr(to_recexpr::<T>(&leaf(&other), nm2).unwrap());
+    eg.union(&base, &o);
+    let in2: Vec<bool> = perms.iter().enumerate().map(|(i, p)| {
+        if i % 2 == 0 { eg.eq(&base, &old[i]) }
+        else { let c = lookup_rec_expr(&to_recexpr::<T>(&leaf(p), nm2).unwrap(), &eg).expect("permuted copy must be represented"); eg.eq(&eg.find_applied_id(&base), &c) }
+    }).collect();
+    let slots2 = eg.find_applied_id(&base).slots().len();
+    (in1, syms1, in2, eg.progress().sum_of_symmetries, slots2)
+}
+
 fn main() {
     let args: Vec<String> = std::env::args().collect();
     install_hook();
@@ -216,11 +244,18 @@ fn main() {
         for c in 0..cases {
             tick(&format!("group case {c}"));
             let deg = if c % 2 == 0 { 5 } else { 6 };
-            let nm = Naming::new(NAMINGS[c % NAMINGS.len()], deg as u32);
+            let nm = Naming::new(NAMINGS[c % NAMINGS.len()], deg as u32 + 1);      // one spare name for the redundancy phase
             let rp = |rng: &mut StdRng| -> Vec<u32> {
                 let mut p: Vec<u32> = (1..=deg as u32).collect();
                 // mostly structured permutations (few moved points), sometimes arbitrary
-                if rng.gen_bool(0.3) { p.shuffle(rng); } else {
+                if rng.gen_bool(0.3) { p.shuffle(rng); } else if rng.gen_bool(0.4) {
+                    // (a b)(y z) with y, z the two LAST points: several generators of this kind share (y z) - generators that
+                    // break together when one of y, z becomes redundant, with different residues
+                    let mut pts: Vec<usize> = (0..deg - 2).collect();
+                    pts.shuffle(rng);
+                    p.swap(pts[0], pts[1]);
+                    p.swap(deg - 2, deg - 1);
+                } else {
                     let k = rng.gen_range(2..=3usize);
                     let mut pts: Vec<usize> = (0..deg).collect();
                     pts.shuffle(rng);
@@ -234,6 +269,7 @@ fn main() {
             let more: Vec<Vec<u32>> = (0..rng.gen_range(0..=2)).map(|_| rp(&mut rng)).collect();
             let probes: Vec<Vec<u32>> = (0..40).map(|_| { let mut p: Vec<u32> = (1..=deg as u32).collect(); p.shuffle(&mut rng); p }).collect();
             let viaeg = deg == 5 || c % 4 == 1;
+            let red = if rng.gen_bool(0.6) { deg } else { rng.gen_range(1..=deg) };      // the position whose slot is made redundant afterwards
             let r = guard(|| {
                 let back = |m: &SlotMap| -> Vec<u32> { (1..=deg as u32).map(|i| nm.name(m[nm.slot(i)]).unwrap()).collect() };
                 let mut g = VerifGroup::new(&omega(deg, &nm), gens.iter().map(|p| perm_map(p, &nm)).collect());
@@ -245,15 +281,18 @@ fn main() {
                 let count2 = g.count();
                 let all2: Vec<Vec<u32>> = g.all_perms().iter().map(|m| back(m)).collect();
                 let in2: Vec<bool> = probes.iter().map(|p| g.contains(&perm_map(p, &nm))).collect();
-                let (eg_in, eg_syms) = if viaeg {
+                let (eg_in, eg_syms, eg_in_red, eg_syms_red, eg_slots_red) = if viaeg {
                     let mut all_gens = gens.clone();
                     all_gens.extend(more.iter().cloned());
                     let (m, s) = egraph_members(&all_gens, &probes, &nm, deg);
-                    ((0..probes.len()).map(|i| m.contains(&i)).collect::<Vec<bool>>(), s)
-                } else { (vec![false; probes.len()], 0) };
-                let pr: Vec<serde_json::Value> = (0..probes.len()).map(|i| json!([probes[i], in1[i], in2[i], eg_in[i]])).collect();
+                    let (m1, s1, m2, s2, sl2) = egraph_members_red(&all_gens, &probes, &nm, deg, red);
+                    let m0 = (0..probes.len()).map(|i| m.contains(&i)).collect::<Vec<bool>>();
+                    if m0 != m1 || s != s1 { panic!("the e-graph answers differently when asked twice (symmetry unions)"); }
+                    (m0, s, m2, s2, sl2)
+                } else { (vec![false; probes.len()], 0, vec![false; probes.len()], 0, 0) };
+                let pr: Vec<serde_json::Value> = (0..probes.len()).map(|i| json!([probes[i], in1[i], in2[i], eg_in[i], eg_in_red[i]])).collect();
                 json!({"deg":deg,"gens":gens,"more":more,"count1":count1,"all1":all1,"orbits1":orbits1,"grew":grew,"count2":count2,"all2":all2,
-                       "probes":pr,"viaegraph":viaeg,"eg_syms":eg_syms,"naming":nm.kind})
+                       "probes":pr,"viaegraph":viaeg,"eg_syms":eg_syms,"red":red,"eg_syms_red":eg_syms_red,"eg_slots_red":eg_slots_red,"naming":nm.kind})
             });
             match r {
                 Ok(v) => writeln!(out, "{v}").unwrap(),
